@@ -23,7 +23,9 @@ type FidelityResult struct {
 // reachable: some seeded map order / schedule makes the instrumented binary
 // print what the plain binary printed.
 func reachable(env *Env, b *Base, rp *Result) bool {
-	for k, pol := range []string{"reverse", "shuffle", "shuffle", "rotate", "shuffle", "shuffle", "shuffle", "shuffle"} {
+	pols := []string{"reverse", "shuffle", "shuffle", "rotate", "shuffle", "shuffle", "shuffle", "shuffle"}
+	for k := 0; k < 32; k++ {
+		pol := pols[k%len(pols)]
 		st := b.StepOf(uint64(1000 + k))
 		st.MapPolicy = pol
 		st.SchedPolicy = []string{"random", "rtb-high", "prefer-high", "rtb-random"}[k%4]
